@@ -196,19 +196,19 @@ the SRT, WebVTT, SSA and STL reader loops; `2a237d5`: one line at the top of the
 
 %s
 
-321 property-breaking changes were written by sub-agents that saw only property texts and a scratch worktree: 47
+345 property-breaking changes were written by sub-agents that saw only property texts and a scratch worktree: 47
 "plausible refactoring" seeds in five batches, 96 mutation-testing style changes in three batches (four per source file or
 area, including the command-line tool), 36 mutants aimed at one property each, 22 mutants of functions no earlier round
-had touched, and 120 "subtle" seeds in three batches that only show under rare conditions (the second and third batch were given
-the summaries of the earlier ones and asked for something else). 318 of them break a property as stated on the current tree and all 318 are
-caught by the quick tier (the CLI mutants by C07, which drives the tool; `seeded/regression_final.txt` is the last run of
-all of them). Three are not flagged, and should not be: C06-c is an equivalent change (it only merges two runs with
+had touched, and 144 "subtle" seeds in four batches that only show under rare conditions (the later batches were given
+the summaries of the earlier ones and asked for something else). 342 of them break a property as stated on the current tree and all 342 are
+caught by the quick tier (the CLI mutants by C07, which drives the tool, and W4-2 by C19; `seeded/regression_final.txt` is the last
+run of the first 321, `seeded/regression_w.txt` that of the 24 of the ninth batch). Three are not flagged, and should not be: C06-c is an equivalent change (it only merges two runs with
 identical attributes); R1-2 changes a helper (`WebVTTTimestampMap.Offset`) that nothing in the library calls and no
 statement mentions; C19-b (an inconsistent sort comparator in `WriteToSSA`) stopped being a violation when the repair
 `0f38ecf` sorted the map keys first - its own demonstration passes on the current tree. P6-2 (wrong bits of an X/28 /
 M/29 designation), which was outside the model for most of the work, is caught since family D models the designation.
-About 115 of the 318 were missed or barely caught when first run (or would have been, judging
-from their description, and were pre-empted) - 24, 15 and 26 of the three times 40 subtle ones, which is what those
+About 124 of the 342 were missed or barely caught when first run (or would have been, judging
+from their description, and were pre-empted) - 24, 15, 26 and 9 of the 40 + 40 + 40 + 24 subtle ones, which is what those
 batches were for; every miss
 was answered by widening a *generator* or the *model* (never by loosening an oracle, never by special-casing the seeded
 input): new families (WebVTT N and K, TTML L and A, SSA I, teletext I, M and D), new rendering choices (per-row box
@@ -224,7 +224,9 @@ multi-line comments, stacked combining marks, file names with several dots), new
 `bytes.Reader` reference delivery, faults whose error value is `io.ErrUnexpectedEOF`, a destination that exists already
 or cannot be written, a text identity of the harness's own instead of `Item.String`, alone-runs repeated in the opposite
 order and in fresh processes, aliasing probes, seekable short-read deliveries, unfaulted writes re-read for completeness,
-twin parent objects, either order of the SubStation sections, designation codes) and a systematic pass of every operation kind over 16 goroutines for C20. Remarks of
+twin parent objects, either order of the SubStation sections, designation codes, a destination that reports a fault
+together with a full count, one-line documents without a final line break, supplied zero-instant dates, a write with the
+caller's own options among default writes, a list whose last rendered instant is the first one of the next write) and a systematic pass of every operation kind over 16 goroutines for C20. Remarks of
 sub-agents led to genuine defects being found and repaired: the teletext reader could not be driven through short reads
 (`be3a749`), `WriteToSSA` depended on map order for styles sharing an ID (`0f38ecf`), the teletext input wrapper spun on
 `io.ErrUnexpectedEOF` (`0ebbb2c`, `08027ad`). After each round earlier changes were re-run (`seedtool.sh runcopy`, a
